@@ -603,6 +603,39 @@ macro_rules! declare_storage_n {
 
                     result
                 }
+
+                /// Verification hook: a read-only copy of this storage's bookkeeping state.
+                #[cfg(gecs_verif)]
+                pub fn verif_dump(&self) -> VerifDump {
+                    // SAFETY: Slots are valid up to capacity and entities are valid up to len.
+                    let slots = unsafe { self.slots.slice(self.capacity) };
+                    let entities = unsafe { self.entities.slice(self.len) };
+                    VerifDump {
+                        version: self.version.get().get(),
+                        len: self.len,
+                        capacity: self.capacity,
+                        free_head: self.free_head.verif_raw(),
+                        slots: slots
+                            .iter()
+                            .map(|s| (s.index().verif_raw(), s.version().get().get()))
+                            .collect(),
+                        entities: entities.iter().map(|e| e.into_any().raw()).collect(),
+                    }
+                }
+
+                /// Verification hook: presets every slot version and the archetype version
+                /// of an empty storage so that version overflow is reachable quickly.
+                #[cfg(gecs_verif)]
+                pub fn verif_preset_versions(&mut self, slot_version: u32, archetype_version: u32) {
+                    assert!(self.len == 0, "verif_preset_versions requires an empty storage");
+                    let slot_version = std::num::NonZeroU32::new(slot_version).unwrap();
+                    let archetype_version = std::num::NonZeroU32::new(archetype_version).unwrap();
+                    // SAFETY: We know that the slot storage is valid up to our capacity.
+                    for slot in unsafe { self.slots.slice_mut(self.capacity) } {
+                        slot.verif_set_version(crate::version::SlotVersion::new(slot_version));
+                    }
+                    self.version = ArchetypeVersion::verif_new(archetype_version);
+                }
             }
 
             impl<A: Archetype, #(T~I,)*> StorageCanResolve<Entity<A>> for $name<A, #(T~I,)*>
@@ -849,6 +882,18 @@ seq!(N in 17..=32 {
         N
     );
 });
+
+/// Verification hook: raw bookkeeping state of one storage (no component data).
+#[cfg(gecs_verif)]
+#[derive(Clone, Debug, PartialEq, Eq)]
+pub struct VerifDump {
+    pub version: u32,
+    pub len: usize,
+    pub capacity: usize,
+    pub free_head: u32,
+    pub slots: Vec<(u32, u32)>,    // (raw slot index, slot version), 0..capacity
+    pub entities: Vec<(u32, u32)>, // (raw key, slot version), 0..len
+}
 
 pub struct DataPtr<T>(NonNull<MaybeUninit<T>>);
 
